@@ -74,7 +74,11 @@ def execute(ob: Obligation) -> Result:
   except Unsupported as e:
     r = Result(UNDECIDED, 'unsupported: %s' % e)
   except Exception as e:      # noqa: BLE001
-    r = Result(ERROR, '%s: %s\n%s' % (type(e).__name__, e, traceback.format_exc()[-1800:]))
+    if type(e).__name__ == 'PathBudget' or (type(e).__name__ == 'ArgumentError' and 'Timeout' in str(e)):
+      # the path-exhaustive engine ran out of its path / solver budget, or the wall-clock alarm interrupted a z3 call: a resource limit, not an engine defect
+      r = Result(UNDECIDED, 'resource limit: %s: %s' % (type(e).__name__, str(e)[:160]))
+    else:
+      r = Result(ERROR, '%s: %s\n%s' % (type(e).__name__, e, traceback.format_exc()[-1800:]))
   finally:
     signal.alarm(0)
     signal.signal(signal.SIGALRM, old)
